@@ -836,7 +836,8 @@ def nonlinear_roots(f, x0, jac=None, tol=None, verbose=False, maxiter=200, use_s
             x = D.ar_numpy.reshape(root, xshape)
             if var_bounds is not None:
                 x = transform_to_unbounded_x(x, *var_bounds)
-            return x, (success, iterations, nfev, njev, prec)
+            # like the other two paths, report the residual norm reached (hybrj's own second value is the norm of its last update)
+            return x, (success, iterations, nfev, njev, D.ar_numpy.linalg.norm(F))
         else:
             x = D.ar_numpy.reshape(x0, (xdim, 1))
     
